@@ -123,9 +123,13 @@ theorem text_message (r0 : Rd) (s : Src) (cx : Ctx) (f0 : WFrame) (fs : List WFr
     · intro hgood
       exfalso
       have hacc : u8Run .acc (dataPlain (f0 :: fs)) = .acc := by simpa [wfUtf8] using hgood
-      rcases a1 with a1 | ⟨he, a1⟩
+      rcases a1 with a1 | ⟨hne, a1⟩
       · rw [hrun, a1, u8Run_rej] at hacc; cases hacc
-      · obtain ⟨h1, _⟩ := heof he
+      · have he : e = some .eof := by
+          rcases hee with h | h
+          · exact absurd h hne
+          · exact h
+        obtain ⟨h1, _⟩ := heof he
         rw [h1] at a1; exact a1 hacc
     · intro _
       exact ⟨Or.inr rfl, fun _ => rfl⟩
